@@ -81,6 +81,9 @@ fn admits(a: &Shape, b: &Shape) -> bool {
 
 fn lit_eq(a: &GVal, b: &GVal) -> bool {
     match (a, b) {
+        // composite alternatives: the same fields / elements, in the same order, with equal values
+        (GVal::Tuple(x), GVal::Tuple(y)) => x.len() == y.len() && x.iter().zip(y).all(|((k1, v1), (k2, v2))| k1 == k2 && lit_eq(v1, v2)),
+        (GVal::List(x), GVal::List(y)) => x.len() == y.len() && x.iter().zip(y).all(|(v1, v2)| lit_eq(v1, v2)),
         (GVal::Int(x), GVal::Int(y)) => x == y,
         (GVal::Float(x), GVal::Float(y)) => x == y,
         (GVal::Str(x), GVal::Str(y)) => x == y,
@@ -216,9 +219,37 @@ fn gen_arms(t: &mut Tape) -> (Vec<Arm>, Vec<GVal>) {
     let n = 1 + t.choice(4);
     let mut arms = vec![];
     let mut probes: Vec<GVal> = vec![];
-    let kind = t.choice(3); // 0 ints, 1 floats, 2 strings
+    let kind = t.choice(4); // 0 ints, 1 floats, 2 strings, 3 tuples and lists
     for _ in 0..n {
         match (kind, t.chance(1, 2)) {
+            (3, as_tuple) => {
+                // composite alternatives; probes: the alternative itself, a strict prefix, an
+                // extension, one changed value, the empty composite
+                let len = t.choice(4);
+                let mut fields: Vec<(String, GVal)> = vec![];
+                for (i, k) in ["a", "b", "c"].iter().enumerate().take(len) {
+                    let v = if t.chance(1, 2) { GVal::Int(t.range(0, 3)) } else { GVal::Str((*t.pick(&["x", "y", ""])).to_string()) };
+                    let _ = i;
+                    fields.push((k.to_string(), v));
+                }
+                let mk = |fs: &[(String, GVal)]| if as_tuple { GVal::Tuple(fs.to_vec()) } else { GVal::List(fs.iter().map(|(_, v)| v.clone()).collect()) };
+                arms.push(Arm::Lit(mk(&fields)));
+                probes.push(mk(&fields));
+                if !fields.is_empty() {
+                    probes.push(mk(&fields[..fields.len() - 1]));
+                    let mut changed = fields.clone();
+                    let last = changed.len() - 1;
+                    changed[last].1 = match &changed[last].1 {
+                        GVal::Int(i) => GVal::Int(i + 1),
+                        _ => GVal::Str("changed".into()),
+                    };
+                    probes.push(mk(&changed));
+                }
+                let mut ext = fields.clone();
+                ext.push(("d".to_string(), GVal::Int(7)));
+                probes.push(mk(&ext));
+                probes.push(mk(&[]));
+            }
             (0, true) => {
                 let lo = t.range(0, 50);
                 let hi = lo + t.range(0, 50);
@@ -273,6 +304,7 @@ fn gen_arms(t: &mut Tape) -> (Vec<Arm>, Vec<GVal>) {
     probes.push(match kind {
         0 => GVal::Float(1.5),
         1 => GVal::Int(1),
+        3 => GVal::Tuple(vec![("z".into(), GVal::Int(1))]),
         _ => GVal::Int(3),
     });
     probes.push(GVal::Str("other".into()));
@@ -293,6 +325,8 @@ enum Via {
     Select,
     ListIndex,
     TupleField,
+    /// a tuple built by copying a base and overriding every field (statically visible shape)
+    CopyOverride,
 }
 
 fn program(c: &Constraint, v: &GVal, form: Form, via: Via) -> String {
@@ -308,6 +342,14 @@ fn program(c: &Constraint, v: &GVal, form: Form, via: Via) -> String {
         Via::Select => format!("select (\"k\", {0}) => {{k = {0}}}", vs),
         Via::ListIndex => format!("[{}].0", vs),
         Via::TupleField => format!("{{f = {}}}.f", vs),
+        Via::CopyOverride => match v {
+            GVal::Tuple(fs) if !fs.is_empty() => {
+                s.push_str(&format!("let base = {};\n", vs));
+                let overrides: Vec<String> = fs.iter().map(|(k, fv)| format!("{} = {}", crate::reflex::quote(k), fv.to_ucg().expect("literal"))).collect();
+                format!("base{{{}}}", overrides.join(", "))
+            }
+            _ => vs,
+        },
     };
     match form {
         Form::Inline => s.push_str(&format!("let x :: {} = {};\n", cs, value)),
@@ -362,7 +404,7 @@ impl C06 {
         }
         let single_literal0 = matches!(c, Constraint::Arms(a) if a.len() == 1 && matches!(a[0], Arm::Lit(_)));
         let kind = match c { Constraint::Exemplar(_) => "exemplar", _ if single_literal0 => "exemplar", _ => "range-or-alternation" };
-        let how = if via == Via::Literal { "literal" } else { "computed" };
+        let how = match via { Via::Literal => "literal", Via::CopyOverride => "copy", _ => "computed" };
         o.portable = Some(serde_json::json!({"programs": results.iter().map(|(f, s, _)| serde_json::json!({"form": format!("{:?}", f), "src": s})).collect::<Vec<_>>(), "want": want, "kind": kind, "how": how}).to_string());
         // all forms agree
         let first_ok = results[0].2.is_ok();
@@ -395,7 +437,7 @@ impl C06 {
             Some(false) => {
                 o.class("non-conforming");
                 if first_ok {
-                    let how = if via == Via::Literal { "literal" } else { "computed" };
+                    let how = match via { Via::Literal => "literal", Via::CopyOverride => "copy", _ => "computed" };
                     let single_literal = matches!(c, Constraint::Arms(a) if a.len() == 1 && matches!(a[0], Arm::Lit(_)));
                     o.fail(&format!("C06/non-conforming-value-accepted:{}:{}", match c { Constraint::Exemplar(_) => "exemplar", _ if single_literal => "exemplar", _ => "range-or-alternation" }, how), format!("the value does not conform but the binding builds\n{}\nprogram:\n{}", rendered, results[0].1));
                 }
@@ -430,7 +472,8 @@ impl Property for C06 {
     }
     fn run_tape(&mut self, words: &[u32]) -> Outcome {
         let mut t = Tape::new(words);
-        let via = match t.weighted(&[6, 2, 1, 1, 1]) {
+        let via = match t.weighted(&[6, 2, 1, 1, 1, 2]) {
+            5 => Via::CopyOverride,
             0 => Via::Literal,
             1 => Via::IdentityCall,
             2 => Via::Select,
